@@ -1136,7 +1136,8 @@ func (p *Printer) term(t *Term) string {
 	if t.hasBound {
 		return s
 	}
-	if len(t.args) == 0 && len(t.bvars) == 0 {
+	if (len(t.args) == 0 && len(t.bvars) == 0) || t.op == "constarr" {
+		// leaves and constant arrays are printed in place (cvc5 wants a literal inside (as const ...))
 		p.seen[t.id] = s
 		return s
 	}
